@@ -238,6 +238,11 @@ def teardown (s : Sess) (t : Nat) : Sess × Raised :=
   | none => (s, .none)
   | some tk =>
     if tk.gen then (s, .none) else
+    -- 9523bbe: products that are ordinary nodes (file products, already resolved pattern products) are checked BEFORE the
+    -- provisional products are resolved and the DAG is re-created; a task failing here still has the consumers of its
+    -- provisional products among its descendants
+    let ordinary := tk.prods ++ (tk.pprods.filter (fun sl => sl.res.isSome)).flatMap Slot.nodes
+    if ordinary.any (fun p => (lookup s.w.fs p).isNone) then (s, .error) else
     let s' := collectProducts s t
     match findTask s'.tasks t with
     | none => (s', .none)
